@@ -22,3 +22,4 @@ func verifAtomic(f func())
 func verifLastRandN() int
 func verifLastRand() int
 func verifBoundSelectDefaults(n int)
+func verifBoundTryFailures(n int)
